@@ -1,23 +1,175 @@
-import QipVerif.Model.Sim
+import QipVerif.Lemmas.SimPure
 /-!
 # C16 — queries, transformations and simulations are pure and repeatable
 
-(first version: the concrete counter-examples of the unrepaired code; the general theorems follow)
+Property theorems only (proofs call `Lemmas/SimPure.lean`).  `World` holds exactly the mutable attributes of the
+modelled objects — a heap of Python lists of ints (so that `self.cbits = cbits` is an alias), the simulator's
+`cbits/_state/_probability/_op_index/_measure_results/_measure_ind`, a user-held compiler's `args/global_phase`,
+a processor's `pulses/global_phase` — and every public operation is `exec : World → Call → World × Ret`.
+The theorems quantify over ALL histories and all inputs (exceptions included); the repaired behaviours they need are
+named hypotheses (`cfg.copyCbits`: fix C02-1, `cfg.resetPhase`: fix C16-1) and refuted for the unrepaired code by
+the counter-examples at the end.
 -/
 namespace QipVerif.C16
 open QipVerif.Sim QipVerif.Heap
+
+variable {Q P : Type}
+
+/-- **args_unchanged.** After any history of public calls (simulator runs with any arguments, manual stepping,
+state reads, circuit queries, compiler and processor calls), every list that existed before the history — the
+caller-owned cells `cells0` — holds its initial value.  (Circuits, gates and states are not cells of the model at
+all: no operation of the model writes them; the correspondence checks that with deep snapshots.) -/
+theorem args_unchanged [One P] [Mul P] (B : Backend Q P) (cfg : Cfg) (hcopy : cfg.copyCbits = true) (mode : Mode)
+    (c : Circuit) (phases : List Int) (w0 : World Q P) (hsim : SimOwn w0.heap.size w0) (calls : List (Call Q))
+    (hok : HistOk B cfg mode c phases w0 calls) (r : Nat) (hr : r < w0.heap.size) :
+    (execAll B cfg mode c phases w0 calls).heap.get r = w0.heap.get r := by
+  have hinv0 : Inv w0.heap.cells w0 := ⟨⟨[], by simp⟩, hsim⟩
+  have hinv := execAll_inv B cfg hcopy mode c phases w0.heap.cells calls w0 hinv0 hok
+  rw [inv_get hinv r hr]
+  simp [Heap.get]
+
+-- non-vacuity: a fresh simulator (`sim = none`) satisfies `SimOwn`
+example (w0 : World Q P) (h : w0.sim = none) : SimOwn w0.heap.size w0 := by
+  intro s r hs; rw [h] at hs; cases hs
+
+/-- **fresh_equivalent (simulator).** For every history `h` and every `run`/`run_statistics` call on a caller-owned
+list (or none): the value returned after `h` equals the value returned by a freshly constructed simulator
+(`sim = none`) given the same lists and the same state of the random generator.  `initialize` overwrites every
+per-run attribute (`initRun_fresh`), so nothing of `h` is read. -/
+theorem fresh_equivalent [One P] [Mul P] (B : Backend Q P) (cfg : Cfg) (hcopy : cfg.copyCbits = true) (mode : Mode)
+    (c : Circuit) (phases : List Int) (w0 : World Q P) (hsim : SimOwn w0.heap.size w0) (h : List (Call Q))
+    (hok : HistOk B cfg mode c phases w0 h) (call : Call Q)
+    (hcall : (∃ st cb mr, call = .run st cb mr) ∨ (∃ st cb, call = .stat st cb))
+    (hcb : ∀ r : Nat, call.cb = some r → r < w0.heap.size) :
+    let wh := execAll B cfg mode c phases w0 h
+    let wf : World Q P := { w0 with sim := none, rng := wh.rng }
+    (exec B cfg mode c phases wh call).2.val (exec B cfg mode c phases wh call).1.heap =
+      (exec B cfg mode c phases wf call).2.val (exec B cfg mode c phases wf call).1.heap := by
+  intro wh wf
+  have hinv0 : Inv w0.heap.cells w0 := ⟨⟨[], by simp⟩, hsim⟩
+  have hinv := execAll_inv B cfg hcopy mode c phases w0.heap.cells h w0 hinv0 hok
+  have hsame : ∀ cb : Option Ref, (∀ r : Nat, cb = some r → r < w0.heap.size) →
+      cb.map wh.heap.get = cb.map wf.heap.get := by
+    intro cb hc
+    cases cb with
+    | none => rfl
+    | some r =>
+      simp only [Option.map_some, Option.some.injEq]
+      rw [inv_get hinv r (hc r rfl)]
+      simp [Heap.get, wf]
+  have hsz : w0.heap.size ≤ wh.heap.size := hinv.size_ge
+  rcases hcall with ⟨st, cb, mr, rfl⟩ | ⟨st, cb, rfl⟩
+  · rw [run_value B cfg mode c phases wh st cb mr (Or.inl hcopy),
+      run_value B cfg mode c phases wf st cb mr (Or.inl hcopy), hsame cb hcb]
+  · have hcb1 : CbOk wh cb := fun r hr => Nat.lt_of_lt_of_le (hcb r hr) hsz
+    have hcb2 : CbOk wf cb := fun r hr => hcb r hr
+    rw [stat_value B cfg mode c phases wh st cb (Or.inl hcopy) hcb1,
+      stat_value B cfg mode c phases wf st cb (Or.inl hcopy) hcb2, hsame cb hcb]
+
+/-- **repeat_equal.** The value a `run`/`run_statistics` call returns is a function of the VALUES of its arguments
+and of the random generator's state: calling it again on the same objects (in the world left by the first call,
+with the generator put back) returns an equal value. -/
+theorem repeat_equal [One P] [Mul P] (B : Backend Q P) (cfg : Cfg) (hcopy : cfg.copyCbits = true) (mode : Mode)
+    (c : Circuit) (phases : List Int) (w : World Q P) (hsim : SimOwn w.heap.size w) (call : Call Q)
+    (hcall : (∃ st cb mr, call = .run st cb mr) ∨ (∃ st cb, call = .stat st cb))
+    (hcb : ∀ r : Nat, call.cb = some r → r < w.heap.size) :
+    let w1 := (exec B cfg mode c phases w call).1
+    let w1' : World Q P := { w1 with rng := w.rng }
+    (exec B cfg mode c phases w1' call).2.val (exec B cfg mode c phases w1' call).1.heap =
+      (exec B cfg mode c phases w call).2.val (exec B cfg mode c phases w call).1.heap := by
+  intro w1 w1'
+  have hinv0 : Inv w.heap.cells w := ⟨⟨[], by simp⟩, hsim⟩
+  have hinv : Inv w.heap.cells w1 := exec_inv B cfg hcopy mode c phases w.heap.cells w call hinv0 hcb
+  have hsz : w.heap.size ≤ w1.heap.size := hinv.size_ge
+  have hsame : ∀ cb : Option Ref, (∀ r : Nat, cb = some r → r < w.heap.size) →
+      cb.map w1'.heap.get = cb.map w.heap.get := by
+    intro cb hc
+    cases cb with
+    | none => rfl
+    | some r =>
+      simp only [Option.map_some, Option.some.injEq]
+      show w1.heap.get r = _
+      rw [inv_get hinv r (hc r rfl)]
+      simp [Heap.get]
+  rcases hcall with ⟨st, cb, mr, rfl⟩ | ⟨st, cb, rfl⟩
+  · rw [run_value B cfg mode c phases w1' st cb mr (Or.inl hcopy),
+      run_value B cfg mode c phases w st cb mr (Or.inl hcopy), hsame cb hcb]
+  · have hcb1 : CbOk w1' cb := fun r hr => Nat.lt_of_lt_of_le (hcb r hr) hsz
+    have hcb2 : CbOk w cb := fun r hr => hcb r hr
+    rw [stat_value B cfg mode c phases w1' st cb (Or.inl hcopy) hcb1,
+      stat_value B cfg mode c phases w st cb (Or.inl hcopy) hcb2, hsame cb hcb]
+
+/-- **no_alias.** In any history, the list objects that the returned results refer to (one per `run`, one per
+surviving record of `run_statistics`) are pairwise different — within one result and across results of different
+calls — and none of them existed before the history: no result aliases another result's or the caller's list. -/
+theorem no_alias [One P] [Mul P] (B : Backend Q P) (cfg : Cfg) (hcopy : cfg.copyCbits = true) (mode : Mode)
+    (c : Circuit) (phases : List Int) (w0 : World Q P) (calls : List (Call Q))
+    (hok : HistOk B cfg mode c phases w0 calls) :
+    (traceRefs B cfg mode c phases w0 calls).Nodup ∧
+    ∀ r ∈ traceRefs B cfg mode c phases w0 calls, w0.heap.size ≤ r :=
+  traceRefs_fresh B cfg hcopy mode c phases calls w0 hok
+
+/-- **fresh_equivalent (processor).** Whatever the processor and a user-held compiler did before, `load_circuit`
+leaves the processor holding exactly the program of this circuit under the compiler's configuration and this
+circuit's global phase — what a freshly constructed processor holds — and returns that program; the compiler's
+configuration, the heap and the simulator are untouched. -/
+theorem fresh_equivalent_load (cfg : Cfg) (hreset : cfg.resetPhase = true) (phases : List Int) (w : World Q P)
+    (circ : Nat) (user : Bool) :
+    (loadCircuit cfg phases w circ user).1.proc =
+      { pulses := some (circ, if user then w.comp.args else []), phase := phases.getD circ 0 } ∧
+    (loadCircuit cfg phases w circ user).2 = (circ, if user then w.comp.args else []) ∧
+    (loadCircuit cfg phases w circ user).1.comp.args = w.comp.args ∧
+    (loadCircuit cfg phases w circ user).1.heap = w.heap ∧ (loadCircuit cfg phases w circ user).1.sim = w.sim :=
+  load_fresh cfg hreset phases w circ user
+
+/-- queries and transformations write nothing -/
+theorem query_pure [One P] [Mul P] (B : Backend Q P) (cfg : Cfg) (mode : Mode) (c : Circuit) (phases : List Int)
+    (w : World Q P) : (exec B cfg mode c phases w .query).1 = w := rfl
+
+/-! ## Counter-examples on the unrepaired code -/
 
 def world0 (lists : List (List Int)) : World Exact.QS Exact.Prob :=
   { heap := ⟨lists⟩, sim := none, rng := [], log := [], comp := defaultCompiler,
     proc := { pulses := none, phase := 0 } }
 
 def cfgCurrent : Cfg := { copyCbits := false, checkCcv := false, resetPhase := false, pureGetter := false }
+def cfgFixed : Cfg := { copyCbits := true, checkCcv := true, resetPhase := true, pureGetter := true }
 
-/-- **Counter-example (global phase accumulates).** Loading the same circuit (phase contribution 1 unit) twice
-with one user-held compiler leaves the processor with phase 1, then 2. -/
+/-- `SNOT 0; measure 0 → c0` -/
+def circHM : Circuit := { nq := 1, ncb := 1, ops := [.gate ⟨4, [0], none, 0⟩, .meas 0 (some 0)] }
+def ket0 : Exact.QS := { n := 1, k := 0, vecs := [[1, 0]] }
+
+/-- **Counter-example (the caller's list is changed and shared by all records; unrepaired `initialize`).** -/
+theorem C16_counterexample_cbits_alias :
+    (execAll Exact.backend cfgCurrent .sv circHM [] (world0 [[0]]) [.stat ket0 (some 0)]).heap.get 0 = [1] ∧
+    traceRefs Exact.backend cfgCurrent .sv circHM [] (world0 [[0]]) [.stat ket0 (some 0)] = [0, 0] ∧
+    (execAll Exact.backend cfgFixed .sv circHM [] (world0 [[0]]) [.stat ket0 (some 0)]).heap.get 0 = [0] ∧
+    traceRefs Exact.backend cfgFixed .sv circHM [] (world0 [[0]]) [.stat ket0 (some 0)] = [1, 2] := by
+  decide +kernel
+
+/-- **Counter-example (global phase accumulates; unrepaired `compile`).** Loading the same circuit (phase
+contribution 1 unit) twice with one user-held compiler leaves the processor with phase 1, then 2. -/
 theorem C16_counterexample_phase_accumulates :
     ((loadCircuit cfgCurrent [1] (world0 []) 0 true).1.proc.phase = 1) ∧
-    ((loadCircuit cfgCurrent [1] (loadCircuit cfgCurrent [1] (world0 []) 0 true).1 0 true).1.proc.phase = 2) := by
+    ((loadCircuit cfgCurrent [1] (loadCircuit cfgCurrent [1] (world0 []) 0 true).1 0 true).1.proc.phase = 2) ∧
+    ((loadCircuit cfgFixed [1] (loadCircuit cfgFixed [1] (world0 []) 0 true).1 0 true).1.proc.phase = 1) := by
   decide
+
+/-- `X 0; X 1` on two qubits -/
+def circXX : Circuit := { nq := 2, ncb := 0, ops := [.gate ⟨0, [0], none, 0⟩, .gate ⟨0, [1], none, 0⟩] }
+def ket00 : Exact.QS := { n := 2, k := 0, vecs := [[1, 0, 0, 0]] }
+
+/-- **Counter-example (reading `sim.state` is not pure; unrepaired property).** `initialize; step; step` ends in
+`|11⟩` held as a tensor-shaped array; with a read of `.state` after the first step the stored array becomes
+matrix-shaped and the second step leaves an array of a wrong shape (the next read raises `ValueError`).  With fix
+C16-2 the read changes nothing. -/
+theorem C16_counterexample_state_getter :
+    ((execAll Exact.backend cfgCurrent .sv circXX [] (world0 []) [.init ket00 none none, .step, .step]).sim.map
+        (·.f.form)) = some .tensor ∧
+    ((execAll Exact.backend cfgCurrent .sv circXX [] (world0 []) [.init ket00 none none, .step, .getState, .step]).sim.map
+        (·.f.form)) = some .garbage ∧
+    ((execAll Exact.backend cfgFixed .sv circXX [] (world0 []) [.init ket00 none none, .step, .getState, .step]).sim.map
+        (·.f.form)) = some .tensor := by
+  decide +kernel
 
 end QipVerif.C16
